@@ -137,7 +137,7 @@ def forEachByRank (z : ZSet) (start stop : Int) (desc : Bool) : Option (List Ite
     else
       if start > 1 then getByRank z.sl start
       else cursorAt z.sl 0
-  let sliceSize := stop - start           -- loop: i = 0 … sliceSize inclusive
+  let sliceSize := wrap64 (stop - start)  -- `int(stop - start)` wraps; loop: i = 0 … sliceSize inclusive
   if sliceSize < 0 then some [] else walk desc node (sliceSize.toNat + 1) []
 
 def zRange (z : ZSet) (start stop : Int) := forEachByRank z start stop false
